@@ -7,6 +7,7 @@ usage: campaign.py [id ...]     (default: all)
 import json, os, subprocess, sys, time, glob
 
 SEEDED = "/verif/seeded"
+SUFFIX = ("-seed" + os.environ["VERIF_SEED"]) if os.environ.get("VERIF_SEED") not in (None, "1") else ""
 
 
 def sh(cmd, **kw):
@@ -16,8 +17,8 @@ def sh(cmd, **kw):
 def main():
     ids = sys.argv[1:] or sorted(os.path.basename(d) for d in glob.glob(SEEDED + "/*") if os.path.isdir(d))
     results = {}
-    if os.path.exists(SEEDED + "/RESULTS.json"):
-        results = json.load(open(SEEDED + "/RESULTS.json"))
+    if os.path.exists(SEEDED + f"/RESULTS{SUFFIX}.json"):
+        results = json.load(open(SEEDED + f"/RESULTS{SUFFIX}.json"))
     if sh("git -C /repo diff --quiet").returncode != 0:
         print("repo dirty, refusing")
         return 2
@@ -44,8 +45,8 @@ def main():
         results[sid] = {"property": prop, "check": f"./check {prop} quick", "exit_code": rc, "violation_lines": len(viol), "rules": rules[:6],
                         "first_witness": first[:300], "caught": rc == 1 and len(viol) > 0, "wall_s": round(time.time() - t, 1)}
         print(sid, "CAUGHT" if results[sid]["caught"] else f"MISSED rc={rc}", rules[:3], flush=True)
-        json.dump(results, open(SEEDED + "/RESULTS.json", "w"), indent=1)
-    with open(SEEDED + "/RESULTS.md", "w") as f:
+        json.dump(results, open(SEEDED + f"/RESULTS{SUFFIX}.json", "w"), indent=1)
+    with open(SEEDED + f"/RESULTS{SUFFIX}.md", "w") as f:
         f.write("# Seeded changes versus the quick checks\n\nEach change is applied to /repo, the quick check of its property is run, the change is undone.\n\n| id | property | caught | rules that fired | first witness |\n|---|---|---|---|---|\n")
         for sid in sorted(results):
             r = results[sid]
